@@ -5,7 +5,7 @@ import random
 BASE_W = dict(
     src=2, ref=6, select=4, drop=2, rename=4, mutate=6, mutate_w=1, filter=3, filter_empty=0, arrange=2,
     slice_head=1, group_by=2, ungroup=1, summarize=2, join=3, union=1, alias=2, collect=1,
-    clone=0, recompute=0, transfer=0, expr=0, collide_setup=0, pipe=0, apply_pipe=0, observe=0, collect_lazy=0,
+    clone=0, recompute=0, transfer=0, expr=0, collide_setup=0, selfjoin=0, pipe=0, apply_pipe=0, observe=0, collect_lazy=0,
     uuid_regime=1, gc=0, arm_engine=0, reject=0,
 )  # fmt: skip
 
@@ -70,7 +70,7 @@ PROFILES = {
     "reroot": dict(
         property="C16",
         oracles=["O16"],
-        weights=_w(alias=8, collect=6, clone=4, transfer=4, recompute=2, ref=8, join=5, rename=4, select=4, mutate=5, group_by=4, summarize=2, union=0, mutate_w=1),
+        weights=_w(alias=8, collect=6, clone=4, transfer=4, recompute=2, ref=8, join=3, selfjoin=6, rename=4, select=4, mutate=5, group_by=4, summarize=2, union=0, mutate_w=1),
         mutate_kinds=EW,
         window_kinds=WIN,
         p_oos=0.15,
